@@ -33,8 +33,16 @@ def reads (o : Out) : List (Nat × Option Nat) :=
 def globalAssigns (o : Out) : List Nat :=
   (o.occs.filter fun oc => assignsGlobal oc && Core.NameFilter.assign oc.name).map (·.tok)
 
+/-- occurrences that use the value of the name: expression positions other than the root of an indexed
+    assignment target -/
+def valueUses (o : Out) : List (Nat × Option Nat) :=
+  (o.occs.filter fun oc => counted oc && Core.NameFilter.read oc.name && oc.kind == .value).map fun oc => (oc.tok, oc.binding.map (·.1))
+
+def occAns (oc : Occ) : Ans :=
+  if oc.kind == .indexedTarget then .root oc.tok (oc.binding.map (·.1)) else .read oc.tok (oc.binding.map (·.1))
+
 def readsOf (o : Out) : List Ans :=
-  (o.occs.filter fun oc => counted oc && Core.NameFilter.read oc.name).map fun oc => .read oc.tok (oc.binding.map (·.1))
+  (o.occs.filter fun oc => counted oc && Core.NameFilter.read oc.name).map occAns
 def assignsOf (o : Out) : List Ans :=
   (o.occs.filter fun oc => assignsGlobal oc && Core.NameFilter.assign oc.name).map fun oc => .gassign oc.tok
 def declsOf (o : Out) : List Ans :=
@@ -46,15 +54,15 @@ def log (o : Out) : List Ans := readsOf o ++ declsOf o ++ assignsOf o
 variable (a : Ans)
 
 theorem log_occ (o : Out) (c : Ctx) (env : Env) (t : Tok) (k : OccKind) (hk : k ≠ .target) :
-    (log (o.occ c env t k)).count a = (log o).count a + (sRead c.inFunction env t).count a := by
+    (log (o.occ c env t k)).count a = (log o).count a + (sRead c.inFunction env t (k == .indexedTarget)).count a := by
   have hc : counted { tok := t.idx, name := t.text, kind := k, binding := env.lookup t.text, inFunction := c.inFunction } =
       !(t.text == "..." && !c.inFunction) := by
     cases k <;> simp_all [counted]
-  have : readsOf (o.occ c env t k) = readsOf o ++ sRead c.inFunction env t := by
+  have : readsOf (o.occ c env t k) = readsOf o ++ sRead c.inFunction env t (k == .indexedTarget) := by
     unfold readsOf Out.occ sRead
     simp only [List.filter_append, List.map_append, List.filter_cons, List.filter_nil, hc]
     by_cases h3 : Core.NameFilter.read t.text = true <;> by_cases h1 : t.text = "..." <;> cases h2 : c.inFunction <;>
-      simp_all [look]
+      cases k <;> simp_all [look, occAns]
   have hd : declsOf (o.occ c env t k) = declsOf o := rfl
   have ha : assignsOf (o.occ c env t k) = assignsOf o := by
     unfold assignsOf Out.occ
@@ -147,13 +155,31 @@ theorem declareParams_spec (ps : List Param) (o : Out) (env : Env) (acc : List N
       show _ = _ + (sDeclParams (bindTok env t "..." .varargParam) rest).count a
       simp only [declare_env]
 
+/-- eager reads of a variable / prefix whose root name occurs with kind `k` -/
+def eVk (k : OccKind) (inF : Bool) (env : Env) (v : Var) : List Ans :=
+  if k = .indexedTarget then eVT inF env v else eV inF env v
+def ePk (k : OccKind) (inF : Bool) (env : Env) (p : Prefix) : List Ans :=
+  if k = .indexedTarget then ePT inF env p else eP inF env p
+
+theorem sRead_kind (k : OccKind) (hk : k ≠ .target) (inF : Bool) (env : Env) (t : Tok) :
+    sRead inF env t (k == .indexedTarget) = ePk k inF env (.name t) ∧
+    sRead inF env t (k == .indexedTarget) = eVk k inF env (.name t) := by
+  cases k with
+  | value => exact ⟨rfl, rfl⟩
+  | target => exact absurd rfl hk
+  | indexedTarget => exact ⟨rfl, rfl⟩
+
+theorem ePk_value (inF : Bool) (env : Env) (p : Prefix) : ePk .value inF env p = eP inF env p := rfl
+theorem eVk_value (inF : Bool) (env : Env) (v : Var) : eVk .value inF env v = eV inF env v := rfl
+theorem eVk_indexed (inF : Bool) (env : Env) (v : Var) : eVk .indexedTarget inF env v = eVT inF env v := rfl
+
 /-- eager reads of the indexed targets of an assignment -/
 def tV (inF : Bool) (env : Env) : VarList → List Ans
   | .nil => []
   | .cons v rest =>
     (match v with
       | .name t => sAssign env t
-      | .expr _ _ _ => eV inF env v) ++ tV inF env rest
+      | .expr _ _ _ => eVT inF env v) ++ tV inF env rest
 
 theorem sTargets_count (a : Ans) (inF : Bool) (env : Env) (vars : VarList) (es : ExprList) :
     (sTargets inF env vars es).count a = (eEs inF env es).count a + (tV inF env vars).count a := by
@@ -168,8 +194,8 @@ theorem sTargets_count (a : Ans) (inF : Bool) (env : Env) (vars : VarList) (es :
         show (([] : List Ans) ++ sAssign env n ++ sTargets inF env rest .nil).count a = ([] : List Ans).count a + (sAssign env n ++ tV inF env rest).count a
         simp only [List.count_append, ih]; simp [eEs]
       | expr vsp p ss =>
-        show (([] : List Ans) ++ eV inF env (.expr vsp p ss) ++ sTargets inF env rest .nil).count a =
-          ([] : List Ans).count a + (eV inF env (.expr vsp p ss) ++ tV inF env rest).count a
+        show (([] : List Ans) ++ eVT inF env (.expr vsp p ss) ++ sTargets inF env rest .nil).count a =
+          ([] : List Ans).count a + (eVT inF env (.expr vsp p ss) ++ tV inF env rest).count a
         simp only [List.count_append, ih]; simp [eEs]
     | cons e es' =>
       have ih := sTargets_count a inF env rest es'
@@ -179,8 +205,8 @@ theorem sTargets_count (a : Ans) (inF : Bool) (env : Env) (vars : VarList) (es :
           (eE inF env e ++ eEs inF env es').count a + (sAssign env n ++ tV inF env rest).count a
         simp only [List.count_append, ih]; omega
       | expr vsp p ss =>
-        show (eE inF env e ++ eV inF env (.expr vsp p ss) ++ sTargets inF env rest es').count a =
-          (eE inF env e ++ eEs inF env es').count a + (eV inF env (.expr vsp p ss) ++ tV inF env rest).count a
+        show (eE inF env e ++ eVT inF env (.expr vsp p ss) ++ sTargets inF env rest es').count a =
+          (eE inF env e ++ eEs inF env es').count a + (eVT inF env (.expr vsp p ss) ++ tV inF env rest).count a
         simp only [List.count_append, ih]; omega
 
 theorem sSs_count (a : Ans) (inF : Bool) (env : Env) (ss : SuffixList) :
@@ -212,8 +238,13 @@ theorem rExpr_count (e : Expr) (o : Out) (c : Ctx) (env : Env) :
   | tbl _ fs => exact rFields_count fs o c env
   | dots t =>
     show (log (o.occ c env t .value)).count a = (log o).count a + (sRead c.inFunction env t).count a + ([] : List Ans).count a
-    rw [log_occ a _ _ _ _ _ (by simp)]; simp
-  | var v => exact rVar_count v o c env .value (by simp)
+    rw [log_occ a _ _ _ _ _ (by simp)]
+    have : (OccKind.value == OccKind.indexedTarget) = false := rfl
+    rw [this]; simp
+  | var v =>
+    have := rVar_count v o c env .value (by simp)
+    rw [eVk_value] at this
+    exact this
   | nil _ => show (log o).count a = (log o).count a + ([] : List Ans).count a + ([] : List Ans).count a; simp
   | true_ _ => show (log o).count a = (log o).count a + ([] : List Ans).count a + ([] : List Ans).count a; simp
   | false_ _ => show (log o).count a = (log o).count a + ([] : List Ans).count a + ([] : List Ans).count a; simp
@@ -257,23 +288,27 @@ theorem rFields_count (fs : FieldList) (o : Out) (c : Ctx) (env : Env) :
       rw [rFields_count rest]; simp
 theorem rVar_count (v : Var) (o : Out) (c : Ctx) (env : Env) (k : OccKind) (hk : k ≠ .target) :
     (log (rVar o c env v k)).count a =
-      (log o).count a + (eV c.inFunction env v).count a + (dV c.inFunction env v).count a := by
+      (log o).count a + (eVk k c.inFunction env v).count a + (dV c.inFunction env v).count a := by
   cases v with
   | name t =>
-    show (log (o.occ c env t k)).count a = (log o).count a + (sRead c.inFunction env t).count a + ([] : List Ans).count a
-    rw [log_occ a _ _ _ _ _ hk]; simp
-  | expr _ p ss =>
+    show (log (o.occ c env t k)).count a = (log o).count a + (eVk k c.inFunction env (.name t)).count a + ([] : List Ans).count a
+    rw [log_occ a _ _ _ _ _ hk, (sRead_kind k hk _ _ _).2]; simp
+  | expr sp p ss =>
+    have he : eVk k c.inFunction env (.expr sp p ss) = ePk k c.inFunction env p ++ eSs c.inFunction env ss := by
+      unfold eVk ePk; split <;> rfl
     show (log (rSuffixes (rPrefix o c env p k) c env ss)).count a = (log o).count a +
-      (eP c.inFunction env p ++ eSs c.inFunction env ss).count a + (dP c.inFunction env p ++ dSs c.inFunction env ss).count a
-    rw [rSuffixes_count ss, rPrefix_count p o c env k hk]; simp only [List.count_append]; omega
+      (eVk k c.inFunction env (.expr sp p ss)).count a + (dP c.inFunction env p ++ dSs c.inFunction env ss).count a
+    rw [he, rSuffixes_count ss, rPrefix_count p o c env k hk]; simp only [List.count_append]; omega
 theorem rPrefix_count (p : Prefix) (o : Out) (c : Ctx) (env : Env) (k : OccKind) (hk : k ≠ .target) :
     (log (rPrefix o c env p k)).count a =
-      (log o).count a + (eP c.inFunction env p).count a + (dP c.inFunction env p).count a := by
+      (log o).count a + (ePk k c.inFunction env p).count a + (dP c.inFunction env p).count a := by
   cases p with
   | name t =>
-    show (log (o.occ c env t k)).count a = (log o).count a + (sRead c.inFunction env t).count a + ([] : List Ans).count a
-    rw [log_occ a _ _ _ _ _ hk]; simp
-  | expr e => exact rExpr_count e o c env
+    show (log (o.occ c env t k)).count a = (log o).count a + (ePk k c.inFunction env (.name t)).count a + ([] : List Ans).count a
+    rw [log_occ a _ _ _ _ _ hk, (sRead_kind k hk _ _ _).1]; simp
+  | expr e =>
+    have he : ePk k c.inFunction env (.expr e) = eE c.inFunction env e := by unfold ePk; split <;> rfl
+    rw [he]; exact rExpr_count e o c env
 theorem rSuffixes_count (ss : SuffixList) (o : Out) (c : Ctx) (env : Env) :
     (log (rSuffixes o c env ss)).count a =
       (log o).count a + (eSs c.inFunction env ss).count a + (dSs c.inFunction env ss).count a := by
@@ -315,7 +350,7 @@ theorem rFCall_count (f : FCall) (o : Out) (c : Ctx) (env : Env) :
   | mk _ p ss =>
     show (log (rSuffixes (rPrefix o c env p .value) c env ss)).count a = (log o).count a +
       (eP c.inFunction env p ++ eSs c.inFunction env ss).count a + (dP c.inFunction env p ++ dSs c.inFunction env ss).count a
-    rw [rSuffixes_count ss, rPrefix_count p o c env .value (by simp)]; simp only [List.count_append]; omega
+    rw [rSuffixes_count ss, rPrefix_count p o c env .value (by simp), ePk_value]; simp only [List.count_append]; omega
 theorem rBody_count (body : FuncBody) (o : Out) (c : Ctx) (env : Env) (selfTok : Option Tok) :
     (log (rBody o c env selfTok body)).count a = (log o).count a + (sBody env selfTok body).count a := by
   cases body with
@@ -391,9 +426,9 @@ theorem rTargets_count (vars : VarList) (o : Out) (c : Ctx) (env : Env) :
       · exact hr _ ⟨rfl, rfl⟩
     | expr vsp p ss =>
       show (log (rTargets (rVar o c env (.expr vsp p ss) .indexedTarget) c env rest)).count a = (log o).count a +
-        (eV c.inFunction env (.expr vsp p ss) ++ tV c.inFunction env rest).count a +
+        (eVT c.inFunction env (.expr vsp p ss) ++ tV c.inFunction env rest).count a +
         (dV c.inFunction env (.expr vsp p ss) ++ dVs c.inFunction env rest).count a
-      rw [rTargets_count rest, rVar_count (.expr vsp p ss) o c env .indexedTarget (by simp)]
+      rw [rTargets_count rest, rVar_count (.expr vsp p ss) o c env .indexedTarget (by simp), eVk_indexed]
       simp only [List.count_append]; omega
 theorem rElseIfs_count (l : ElseIfList) (o : Out) (c : Ctx) (env : Env) :
     (log (rElseIfs o c env l)).count a = (log o).count a + (sElifs c.inFunction env l).count a := by
@@ -429,7 +464,7 @@ theorem rStmt_count (s : Stmt) (o : Out) (c : Ctx) (env : Env) :
       refine ⟨?_, rfl⟩
       show (log (rSuffixes (rPrefix o c env p .value) c env ss)).count a = (log o).count a +
         (eP c.inFunction env p ++ dP c.inFunction env p ++ sSs c.inFunction env ss).count a
-      rw [rSuffixes_count ss, rPrefix_count p o c env .value (by simp)]
+      rw [rSuffixes_count ss, rPrefix_count p o c env .value (by simp), ePk_value]
       simp only [List.count_append, sSs_count]; omega
   | do_ _ b => exact ⟨(rBlock_count b o { c with depth := c.depth + 1 } env).1, rfl⟩
   | while_ _ cond b =>
@@ -503,7 +538,7 @@ theorem rStmt_count (s : Stmt) (o : Out) (c : Ctx) (env : Env) :
       refine ⟨?_, rfl⟩
       show (log (rBody (if (!more.isEmpty || method.isSome) = true then o.occ c env base .indexedTarget
           else if (env.lookup base.text).isNone = true then _ else o.occ c env base .target) c env method body)).count a =
-        (log o).count a + ((if (!more.isEmpty || method.isSome) = true then sRead c.inFunction env base else sAssign env base) ++
+        (log o).count a + ((if (!more.isEmpty || method.isSome) = true then sRead c.inFunction env base true else sAssign env base) ++
           sBody env method body).count a
       rw [rBody_count body]
       cases hl : (!more.isEmpty || method.isSome)
@@ -519,7 +554,9 @@ theorem rStmt_count (s : Stmt) (o : Out) (c : Ctx) (env : Env) :
           · exact log_occ_target a o c env base
         rw [hr]; simp only [List.count_append]; omega
       · simp only [if_true]
-        rw [log_occ a _ _ _ _ _ (by simp)]; simp only [List.count_append]; omega
+        rw [log_occ a _ _ _ _ _ (by simp)]
+        have : (OccKind.indexedTarget == OccKind.indexedTarget) = true := rfl
+        rw [this]; simp only [List.count_append]; omega
   | localFunc _ name body =>
     refine ⟨?_, rfl⟩
     show (log (rBody (declare o env name name.text .localFunc []).1 c (bindTok env name name.text .localFunc) none body)).count a =
@@ -545,14 +582,87 @@ theorem filterMap_none {α β : Type} (l : List α) : l.filterMap (fun _ => (non
   | nil => rfl
   | cons _ _ ih => simp [List.filterMap_cons, ih]
 
+theorem occAns_readOf (oc : Occ) : Core.Ans.readOf (occAns oc) = some (oc.tok, oc.binding.map (·.1)) := by
+  unfold occAns; split <;> rfl
+theorem occAns_declOf (oc : Occ) : Core.Ans.declOf (occAns oc) = none := by
+  unfold occAns; split <;> rfl
+theorem occAns_assignOf (oc : Occ) : Core.Ans.assignOf (occAns oc) = none := by
+  unfold occAns; split <;> rfl
+theorem occAns_valueOf (oc : Occ) (hk : oc.kind ≠ .target) :
+    Core.Ans.valueOf (occAns oc) = if oc.kind == .value then some (oc.tok, oc.binding.map (·.1)) else none := by
+  unfold occAns
+  cases h : oc.kind <;> simp_all [Core.Ans.valueOf]
+
+theorem fm_map_some {α β γ : Type} (l : List α) (g : α → β) (f : β → Option γ) (h : α → γ)
+    (hh : ∀ x, f (g x) = some (h x)) : (l.map g).filterMap f = l.map h := by
+  induction l with
+  | nil => rfl
+  | cons x rest ih => simp [List.filterMap_cons, hh, ih]
+
+theorem fm_map_none {α β γ : Type} (l : List α) (g : α → β) (f : β → Option γ)
+    (hh : ∀ x, f (g x) = none) : (l.map g).filterMap f = [] := by
+  induction l with
+  | nil => rfl
+  | cons x rest ih => simp [List.filterMap_cons, hh, ih]
+
+theorem reads_fm (o : Out) : (readsOf o).filterMap Core.Ans.readOf = reads o := by
+  unfold readsOf reads
+  exact fm_map_some _ occAns Core.Ans.readOf (fun oc => (oc.tok, oc.binding.map (·.1))) occAns_readOf
+theorem decls_fm (o : Out) : (declsOf o).filterMap Core.Ans.declOf = shadows o := by
+  unfold declsOf shadows
+  exact fm_map_some _ (fun d : Decl => Ans.decl d.tok (d.visibleSameName.map (·.1))) Core.Ans.declOf
+    (fun d => (d.tok, d.visibleSameName.map (·.1))) (fun _ => rfl)
+theorem assigns_fm (o : Out) : (assignsOf o).filterMap Core.Ans.assignOf = globalAssigns o := by
+  unfold assignsOf globalAssigns
+  exact fm_map_some _ (fun oc : Occ => Ans.gassign oc.tok) Core.Ans.assignOf (fun oc => oc.tok) (fun _ => rfl)
+theorem decls_none {γ : Type} (o : Out) (f : Ans → Option γ) (hf : ∀ t d, f (.decl t d) = none) :
+    (declsOf o).filterMap f = [] := by
+  unfold declsOf
+  exact fm_map_none _ (fun d : Decl => Ans.decl d.tok (d.visibleSameName.map (·.1))) f (fun _ => hf _ _)
+theorem assigns_none {γ : Type} (o : Out) (f : Ans → Option γ) (hf : ∀ t, f (.gassign t) = none) :
+    (assignsOf o).filterMap f = [] := by
+  unfold assignsOf
+  exact fm_map_none _ (fun oc : Occ => Ans.gassign oc.tok) f (fun _ => hf _)
+theorem reads_none {γ : Type} (o : Out) (f : Ans → Option γ) (hf : ∀ oc, f (occAns oc) = none) :
+    (readsOf o).filterMap f = [] := by
+  unfold readsOf
+  exact fm_map_none _ occAns f hf
+
 theorem log_reads (o : Out) : (log o).filterMap Core.Ans.readOf = reads o := by
-  simp [log, readsOf, declsOf, assignsOf, reads, List.filterMap_append, List.filterMap_map, Core.Ans.readOf, Function.comp_def, filterMap_none]
+  unfold log
+  rw [List.filterMap_append, List.filterMap_append, reads_fm, decls_none o _ (fun _ _ => rfl), assigns_none o _ (fun _ => rfl)]
+  simp
 
 theorem log_shadows (o : Out) : (log o).filterMap Core.Ans.declOf = shadows o := by
-  simp [log, readsOf, declsOf, assignsOf, shadows, List.filterMap_append, List.filterMap_map, Core.Ans.declOf, Function.comp_def, filterMap_none]
+  unfold log
+  rw [List.filterMap_append, List.filterMap_append, decls_fm, reads_none o _ occAns_declOf, assigns_none o _ (fun _ => rfl)]
+  simp
 
 theorem log_globalAssigns (o : Out) : (log o).filterMap Core.Ans.assignOf = globalAssigns o := by
-  simp [log, readsOf, declsOf, assignsOf, globalAssigns, List.filterMap_append, List.filterMap_map, Core.Ans.assignOf, Function.comp_def, filterMap_none]
+  unfold log
+  rw [List.filterMap_append, List.filterMap_append, assigns_fm, reads_none o _ occAns_assignOf, decls_none o _ (fun _ _ => rfl)]
+  simp
+
+theorem log_valueUses (o : Out) : (log o).filterMap Core.Ans.valueOf = valueUses o := by
+  have h1 : (readsOf o).filterMap Core.Ans.valueOf = valueUses o := by
+    unfold readsOf valueUses
+    induction o.occs with
+    | nil => rfl
+    | cons oc rest ih =>
+      simp only [List.filter_cons]
+      cases hc : counted oc with
+      | false => simpa using ih
+      | true =>
+        cases hr : Core.NameFilter.read oc.name with
+        | false => simpa using ih
+        | true =>
+          have hk : oc.kind ≠ .target := by
+            intro h; simp [counted, h] at hc
+          simp only [Bool.and_self, Bool.true_and, if_true, List.map_cons, List.filterMap_cons, occAns_valueOf oc hk]
+          cases hv : (oc.kind == OccKind.value) <;> simpa using ih
+  unfold log
+  rw [List.filterMap_append, List.filterMap_append, h1, decls_none o _ (fun _ _ => rfl), assigns_none o _ (fun _ => rfl)]
+  simp
 
 theorem mem_globalAssigns (o : Out) (t : Nat) :
     t ∈ globalAssigns o ↔ ∃ oc ∈ o.occs, assignsGlobal oc = true ∧ Core.NameFilter.assign oc.name = true ∧ oc.tok = t := by
